@@ -98,6 +98,27 @@ Qed.
 Theorem next_var_is_fresh t : WF t -> ~ In (fst (next_var_name t)) (bvars (stmts t)).
 Proof. exact (next_var_fresh t). Qed.
 
+(* --- clone: independent copy ------------------------------------------------------------------ *)
+(* the clone's registry is rebuilt from its own statements: it does not depend on (or share) the
+   original's registry, whatever state that is in *)
+Theorem clone_registry_independent t : reg (clone t) = rebuild (stmts t).
+Proof. reflexivity. Qed.
+
+Theorem clone_same_content t : stmts (clone t) = stmts t /\ counter (clone t) = counter t.
+Proof. split; reflexivity. Qed.
+
+(* whatever is done to the clone, the original is unchanged, and vice versa *)
+Theorem clone_independent t ops :
+  fst (run_on_clone (clone_pair t) ops) = t /\ snd (run_on_clone (clone_pair t) ops) = run (clone t) ops
+  /\ snd (run_on_orig (clone_pair t) ops) = clone t.
+Proof. repeat split. Qed.
+
+(* both components stay well-formed under their own histories *)
+Theorem clone_pair_WF t ops1 ops2 :
+  WF t -> ops_okb t ops1 = true -> ops_okb (clone t) ops2 = true ->
+  WF (run t ops1) /\ WF (run (clone t) ops2).
+Proof. intros HW H1 H2. split; apply run_WF; auto. apply clone_WF. exact HW. Qed.
+
 (* --- insertion loop ---------------------------------------------------------------------------- *)
 Theorem insert_loop_bound maxlen : forall ps t,
   size (insert_loop maxlen t ps) <= Nat.max (size t) maxlen.
